@@ -394,7 +394,7 @@ pub fn probe_fees_direct(w: &World, amount: u128, discount: u128, pos: u8, obs: 
         return;
     }
     let idx = live[pos as usize % live.len()];
-    let mut f = w.clone();
+    let mut f = w.fork();
     let prices = f.prices;
     let p: SimPosition = f.positions[idx];
     let price = *prices.collateral_token_price(p.is_collateral_token_long);
@@ -422,7 +422,7 @@ pub fn probe_fees_direct(w: &World, amount: u128, discount: u128, pos: u8, obs: 
 pub fn probe_discount(w: &World, pos: u8, collateral: u128, size_usd: u128, discount: u128, obs: &mut Obs) {
     let idx = pos as usize % w.positions.len();
     let run = |d: u128| {
-        let mut f = w.clone();
+        let mut f = w.fork();
         let (r, _, _, _) = f.run_tx(0, |w, sc| w.tx_increase(sc, idx, collateral, size_usd, None, Some(d)));
         r.ok().map(|rep| {
             let of = rep.fees().order_fees();
